@@ -82,6 +82,157 @@ fn singles(xs: &[i128], tx: IntTy) -> Vec<Vec<Val>> {
     xs.iter().map(|x| vec![Val::Int(*x, tx)]).collect()
 }
 
+/// scalar reference for one 16-bit operator application: (panics, reason code, value bits)
+fn ref16(op: BinOp, signed: bool, a: i64, b: i64) -> (bool, u8, u64, bool) {
+    // returns (panic, reason, value as raw bits, ambiguous: either outcome acceptable)
+    let (min, max) = if signed { (-32768i64, 32767i64) } else { (0i64, 65535i64) };
+    let fits = |v: i64| v >= min && v <= max;
+    let val = |v: i64| (v as u64) & 0xFFFF;
+    match op {
+        BinOp::Add => { let r = a + b; if fits(r) { (false, 0, val(r), false) } else { (true, 1, 0, false) } }
+        BinOp::Sub => { let r = a - b; if fits(r) { (false, 0, val(r), false) } else { (true, 1, 0, false) } }
+        BinOp::Mul => { let r = a * b; if fits(r) { (false, 0, val(r), false) } else { (true, 1, 0, false) } }
+        BinOp::Div => {
+            if b == 0 { (true, 2, 0, false) } else { let r = a / b; if fits(r) { (false, 0, val(r), false) } else { (true, 1, 0, false) } }
+        }
+        BinOp::Rem => {
+            if b == 0 { (true, 2, 0, false) } else if signed && a == min && b == -1 { (false, 0, 0, true) } else { (false, 0, val(a % b), false) }
+        }
+        BinOp::BitAnd => (false, 0, val(a & b), false),
+        BinOp::BitOr => (false, 0, val(a | b), false),
+        BinOp::BitXor => (false, 0, val(a ^ b), false),
+        BinOp::Shl => if b >= 16 { (true, 1, 0, false) } else { (false, 0, val(a << b), false) },
+        BinOp::Shr => if b >= 16 { (true, 1, 0, false) } else { (false, 0, val(a >> b), false) },
+        BinOp::Lt => (false, 0, (a < b) as u64, false),
+        BinOp::Gt => (false, 0, (a > b) as u64, false),
+        BinOp::Le => (false, 0, (a <= b) as u64, false),
+        BinOp::Ge => (false, 0, (a >= b) as u64, false),
+        BinOp::Eq => (false, 0, (a == b) as u64, false),
+        BinOp::Ne => (false, 0, (a != b) as u64, false),
+        _ => unreachable!(),
+    }
+}
+
+/// full sweep of every 16-bit operator over all operand pairs, bit-sliced (thorough tier)
+fn sweep16(budget: &Budget, coll: &Collector) -> serde_json::Value {
+    use crate::bitslice::{conformance, Sliced, LANE};
+    use crate::subject::{self, CompileOutcome};
+    use std::sync::atomic::{AtomicU64, Ordering};
+    let pairs = AtomicU64::new(0);
+    let conf = AtomicU64::new(0);
+    let panics = AtomicU64::new(0);
+    let mut blocks = serde_json::Map::new();
+    for t in [IntTy::U16, IntTy::I16] {
+        for op in ALL_BINOPS {
+            let rt = rhs_ty(op, t);
+            let prog = Program::simple_main(vec![("x", Ty::Int(t)), ("y", Ty::Int(rt))], result_ty(op, t), vec![expr_stmt(bin(op, var("x"), var("y")))]);
+            let mut p2 = prog.clone();
+            let n = p2.assign_ids();
+            let text = print_program(&p2, n).text;
+            let site = format!("binop16-full/{}/{}", t.name(), op.sym());
+            let circuit = match subject::compile(&text, subject::CONFIGS[0], std::collections::HashMap::new()) {
+                CompileOutcome::Ok(p) => match &p.circuit {
+                    garble_lang::circuit_type::CircuitType::Ssa(c) => c.clone(),
+                    _ => unreachable!(),
+                },
+                other => machinery_failure(&format!("{site} does not compile: {other:?}")),
+            };
+            match conformance(&circuit, 1024) {
+                Ok(k) => {
+                    conf.fetch_add(k as u64, Ordering::Relaxed);
+                }
+                Err(e) => machinery_failure(&e),
+            }
+            let ybits = rt.bits() as usize;
+            let yblocks = (1usize << ybits) / 64;
+            let out_bits = if op.is_cmp() { 1 } else { 16 };
+            let signed = t.signed();
+            let done = par_range(256, budget, |chunk| {
+                let mut s = Sliced::new(&circuit);
+                let mut inputs = vec![0u64; 16 + ybits];
+                let mut local_pairs = 0u64;
+                let mut local_panics = 0u64;
+                for xr in (chunk * 256)..(chunk * 256 + 256) {
+                    for i in 0..16 {
+                        inputs[i] = if (xr >> (15 - i)) & 1 == 1 { u64::MAX } else { 0 };
+                    }
+                    let xv: i64 = if signed { xr as u16 as i16 as i64 } else { xr as i64 };
+                    for yb in 0..yblocks {
+                        for i in 0..ybits {
+                            let bit = ybits - 1 - i; // wire i of y is bit (ybits-1-i)
+                            inputs[16 + i] = if bit < 6 { LANE[bit] } else if (yb >> (bit - 6)) & 1 == 1 { u64::MAX } else { 0 };
+                        }
+                        s.eval(&inputs);
+                        // expected words
+                        let mut e_panic = 0u64;
+                        let mut e_r1 = 0u64;
+                        let mut e_r2 = 0u64;
+                        let mut e_amb = 0u64;
+                        let mut e_val = [0u64; 16];
+                        for lane in 0..64usize {
+                            let yr = yb * 64 + lane;
+                            let yv: i64 = if rt == IntTy::U8 { yr as i64 } else if signed { yr as u16 as i16 as i64 } else { yr as i64 };
+                            let (pn, reason, v, amb) = ref16(op, signed, xv, yv);
+                            if pn {
+                                e_panic |= 1 << lane;
+                                if reason & 1 == 1 {
+                                    e_r1 |= 1 << lane;
+                                }
+                                if reason & 2 == 2 {
+                                    e_r2 |= 1 << lane;
+                                }
+                            }
+                            if amb {
+                                e_amb |= 1 << lane;
+                            }
+                            for k in 0..out_bits {
+                                if (v >> (out_bits - 1 - k)) & 1 == 1 {
+                                    e_val[k] |= 1 << lane;
+                                }
+                            }
+                        }
+                        local_pairs += 64;
+                        local_panics += e_panic.count_ones() as u64;
+                        let got_panic = s.output(0);
+                        let mut bad = (got_panic ^ e_panic) & !e_amb;
+                        // reason (outputs 1..=32 hold a big-endian 32-bit code: bit0 = output 32, bit1 = output 31)
+                        bad |= (s.output(32) ^ e_r1) & e_panic & !e_amb;
+                        bad |= (s.output(31) ^ e_r2) & e_panic & !e_amb;
+                        for k in 0..out_bits {
+                            bad |= (s.output(161 + k) ^ e_val[k]) & !e_panic & !got_panic;
+                        }
+                        // ambiguous lanes (MIN % -1): value 0 without panic, or an Overflow panic
+                        if e_amb != 0 {
+                            let mut v_nonzero = 0u64;
+                            for k in 0..out_bits {
+                                v_nonzero |= s.output(161 + k);
+                            }
+                            bad |= e_amb & !got_panic & v_nonzero;
+                        }
+                        if bad != 0 {
+                            let lane = bad.trailing_zeros() as usize;
+                            let yr = yb * 64 + lane;
+                            coll.push(Violation::new(
+                                "C03",
+                                site.clone(),
+                                "wrong-result-16bit",
+                                format!("x={xr:#06x} y={yr:#06x}"),
+                                json!({"kind": "program", "source": text, "args": [format!("{:#06x}", xr), format!("{:#06x}", yr)], "note": "raw 16-bit operand patterns"}),
+                                format!("bit-sliced evaluation of the compiled circuit disagrees with exact arithmetic for raw operands x={xr:#06x}, y={yr:#06x}"),
+                            ));
+                            return;
+                        }
+                    }
+                }
+                pairs.fetch_add(local_pairs, Ordering::Relaxed);
+                panics.fetch_add(local_panics, Ordering::Relaxed);
+            });
+            blocks.insert(site, json!({"chunks_done": done, "of": 256, "gates": circuit.gates.len()}));
+        }
+    }
+    json!({"operand_pairs": pairs.load(Ordering::Relaxed), "expected_panic_pairs": panics.load(Ordering::Relaxed), "conformance_assignments_checked_against_real_eval": conf.load(Ordering::Relaxed), "blocks": blocks})
+}
+
 pub fn run(tier: Tier) -> i32 {
     let start = Instant::now();
     let budget = Budget::new(tier.pick(150.0, 3300.0));
@@ -274,6 +425,7 @@ pub fn run(tier: Tier) -> i32 {
         e.1 += job.inputs.len() as u64;
         e.2 += st.panic_inputs;
     });
+    let full16 = if tier == Tier::Thorough { sweep16(&budget, &coll) } else { json!("thorough tier only") };
     let complete = done == n_jobs && !budget.hit();
     let blocks = blocks.into_inner().unwrap();
     let exhaustive_blocks = blocks.iter().filter(|(_, v)| v.3).count();
@@ -304,6 +456,8 @@ pub fn run(tier: Tier) -> i32 {
             "ambiguous_inputs(MIN % -1)": counters.get("ambiguous_inputs"),
             "exhaustive": complete,
             "exhaustive_note": format!("{} of {} blocks sweep the full operand domain (8-bit operators, 8/16-bit casts, bool); the remaining blocks enumerate the stated boundary products completely; wall cap hit: {}", exhaustive_blocks, blocks.len(), budget.hit()),
+            "full_16bit_operator_sweep(bit-sliced)": full16,
+            "traces_validated_against_impl": full16.get("conformance_assignments_checked_against_real_eval").cloned().unwrap_or(json!(0)),
             "jobs_total": n_jobs,
             "jobs_done": done,
             "configs": attr.configs.iter().map(|c| c.name()).collect::<Vec<_>>(),
